@@ -585,3 +585,45 @@ func genCourt(rng *rand.Rand, w int) lpoly {
 	}
 	return p
 }
+
+// genDart: an arrowhead (triangle a, c, d whose edge a-c is replaced by a notch a -> b -> c) whose notch vertex b lies within a
+// pixel of the long edge d-a, so that one wing is a sliver: on a fine level the long edge is routed through b's pixel and the
+// ring can fall apart or turn inside out there while it stays a triangle on a coarser one (a level abandoned although a
+// SHALLOWER one survives - the opposite of the usual collapse).  Random symmetry of the square applied.
+func genDart(rng *rand.Rand, w int) lpoly {
+	max := w * 4
+	lo, hi := max/8, max-max/8
+	span := hi - lo
+	a := [2]int{lo + rng.Intn(span/3+1), hi - rng.Intn(span/3+1)}
+	c := [2]int{hi - rng.Intn(span/3+1), hi - rng.Intn(span/2+1)}
+	d := [2]int{lo + span/4 + rng.Intn(span/2+1), lo + rng.Intn(span/4+1)}
+	// b: on d-a at 3/8 .. 5/8 of the way, moved 0-3 lattice units towards c
+	t := 3 + rng.Intn(3)
+	b := [2]int{d[0] + (a[0]-d[0])*t/8, d[1] + (a[1]-d[1])*t/8}
+	off := rng.Intn(4)
+	if c[0] > b[0] {
+		b[0] += off
+	}
+	if rng.Intn(2) == 0 && c[1] > b[1] {
+		b[1] += rng.Intn(3)
+	}
+	p := lpoly{{a, b, c, d}}
+	if rng.Intn(4) == 0 { // a fifth vertex on the other long edge
+		p[0] = [][2]int{a, b, c, {(c[0] + d[0]) / 2, (c[1]+d[1])/2 - rng.Intn(2)}, d}
+	}
+	sym := rng.Intn(8)
+	for i := range p[0] {
+		x, y := p[0][i][0], p[0][i][1]
+		if sym&1 != 0 {
+			x = max - x
+		}
+		if sym&2 != 0 {
+			y = max - y
+		}
+		if sym&4 != 0 {
+			x, y = y, x
+		}
+		p[0][i] = [2]int{x, y}
+	}
+	return p
+}
